@@ -9,7 +9,9 @@ Local Open Scope Z_scope.
 (* one clause of the property per constructor; a case of the check is (architecture, clause) *)
 Inductive clause :=
 | CDescr          (* endian / word size / stack pointer are the platform's; the loader picks this descriptor *)
-| CLifted         (* ... and are those the lifted code uses (sp scalar, address width, decode byte order, widths) *)
+| CLifted         (* ... and are those the lifted code uses (sp scalar, address width, decode byte order); lifted
+                     IL mentions only table registers, the allow-listed extras and temp_* temporaries *)
+| CStackOps       (* the IL of every push / pop / call / ret / frame instruction writes the published stack pointer *)
 | CNamed          (* every register the table names is a scalar the translator produces, with that width *)
 | CArgs           (* argument registers in ABI order *)
 | CRet            (* return-value register *)
@@ -21,7 +23,7 @@ Inductive clause :=
 | CClasses.       (* preserved registers are callee-saved, trashed ones caller-saved in the ABI *)
 
 Definition all_clauses : list clause :=
-  [CDescr; CLifted; CNamed; CArgs; CRet; CRetAddr; CStackStride; CStackBase; CDisjoint; CSpPreserved; CClasses].
+  [CDescr; CLifted; CStackOps; CNamed; CArgs; CRet; CRetAddr; CStackStride; CStackBase; CDisjoint; CSpPreserved; CClasses].
 
 Definition aloc_matches (w : Z) (a : aloc) (l : loc) : bool :=
   match a, l with
@@ -53,7 +55,10 @@ Definition clause_ok (a : abi) (t : dump) (k : clause) : bool :=
       && negb (match d_addr_widths t with [] => true | _ => false end)
       && forallb (fun w => Z.eqb w (d_word t)) (d_addr_widths t)
       && probe_eqb (d_probe t) (probe_of (a_insn_endian a))
-      && forallb (fun r => mem_reg r (d_table t) || negb (name_in (fst r) (d_table t))) (d_seen t)
+      && forallb (fun r => mem_reg r (d_table t) || mem_reg r (a_extras a) || is_temp (fst r)) (d_seen t)
+  | CStackOps =>
+      negb (match d_stack_ops t with [] => true | _ => false end)
+      && forallb (fun o => mem_reg (d_sp t) (snd o)) (d_stack_ops t)
   | CNamed => forallb (fun r => mem_reg r (universe t)) (named_regs c)
   | CArgs => list_eqb reg_eqb (args c) (map (fun n => (n, a_word a)) (a_args a))
   | CRet => reg_eqb (ret_reg c) (a_ret a, a_word a)
@@ -92,7 +97,10 @@ Record C20_statement (a : abi) (t : dump) : Prop := {
   st_sp_emitted : In (d_sp t) (d_table t) /\ In (d_sp t) (d_seen t);
   st_addresses : d_addr_widths t <> [] /\ forall w, In w (d_addr_widths t) -> w = d_word t;
   st_decode_order : d_probe t = probe_of (a_insn_endian a);
-  st_one_width : forall n w w', In (n, w) (d_seen t) -> In (n, w') (d_table t) -> In (n, w) (d_table t);
+  st_vocabulary : forall r, In r (d_seen t) ->
+                  In r (d_table t) \/ In r (a_extras a) \/ is_temp (fst r) = true;
+  st_stack_ops : d_stack_ops t <> [] /\
+                 forall insn written, In (insn, written) (d_stack_ops t) -> In (d_sp t) written;
   (* "every register named by the default calling convention is a scalar the translator produces,
      with that width" *)
   st_named : forall r, named (d_cc t) r -> In r (universe t);
@@ -175,6 +183,7 @@ Proof.
   assert (HK : forall k, clause_ok a t k = true)
     by (intros k; apply (clause_of a t k Hall), all_clauses_complete).
   pose proof (HK CDescr) as HD. pose proof (HK CLifted) as HL. pose proof (HK CNamed) as HN.
+  pose proof (HK CStackOps) as HSO.
   pose proof (HK CArgs) as HA. pose proof (HK CRet) as HR. pose proof (HK CRetAddr) as HRA.
   pose proof (HK CStackStride) as HS. pose proof (HK CStackBase) as HB. pose proof (HK CDisjoint) as HJ.
   pose proof (HK CSpPreserved) as HP. pose proof (HK CClasses) as HC.
@@ -209,10 +218,15 @@ Proof.
     + destruct (d_addr_widths t); [discriminate|congruence].
     + intros w Hin. apply Haw in Hin. apply Z.eqb_eq in Hin. exact Hin.
   - exact Hpr.
-  - intros n w w' Hs Ht. specialize (Hsw _ Hs). apply orb_true_iff in Hsw. destruct Hsw as [Hm|Hm].
-    + apply mem_reg_In in Hm. exact Hm.
-    + cbn [fst] in Hm. apply negb_true_iff in Hm.
-      assert (Hx : name_in n (d_table t) = true) by (apply name_in_In; exists w'; exact Ht). congruence.
+  - intros r Hs. specialize (Hsw _ Hs). repeat rewrite orb_true_iff in Hsw.
+    destruct Hsw as [[Hm|Hm]|Hm].
+    + left. apply mem_reg_In; exact Hm.
+    + right; left. apply mem_reg_In; exact Hm.
+    + right; right. exact Hm.
+  - apply andb_true_iff in HSO. destruct HSO as [Hne' Hall']. split.
+    + destruct (d_stack_ops t); [discriminate|congruence].
+    + intros insn written Hin. rewrite forallb_forall in Hall'. specialize (Hall' _ Hin).
+      cbn [snd] in Hall'. apply mem_reg_In; exact Hall'.
   - intros r Hr. rewrite forallb_forall in HN. apply mem_reg_In. apply HN.
     unfold named_regs. unfold named in Hr.
     destruct Hr as [H|[H|[H|[H|H]]]].
